@@ -1,7 +1,7 @@
 ################################################################################
 # © Copyright 2021-2022 Zapata Computing Inc.
 ################################################################################
-from dataclasses import dataclass, replace
+from dataclasses import dataclass
 from functools import singledispatch
 from numbers import Complex
 from typing import Iterable, Tuple
@@ -105,7 +105,9 @@ class ResetOperation:
         )
 
     def replace_params(self, new_params: Tuple[Parameter, ...]) -> "ResetOperation":
-        return replace(self, params=new_params)
+        new_operation = ResetOperation(self.qubit_indices[0])
+        new_operation.params = new_params
+        return new_operation
 
     def apply(self, amplitude_vector: ParameterizedVector) -> ParameterizedVector:
         raise RuntimeError(
